@@ -162,17 +162,22 @@ def se3(rot, pos):
 
 
 def snapshot(traj):
-    """bit-exact snapshot of everything observable of a trajectory WITHOUT forcing caches"""
+    """bit-exact snapshot of every array an object holds, WITHOUT forcing caches and without relying on attribute names:
+    every ndarray-valued and every list-of-ndarray-valued attribute (whatever it is called), plus the meta dict"""
     d = {}
-    for k in ("_positions_xyz", "_orientations_quat_wxyz", "timestamps"):
-        if hasattr(traj, k):
-            d[k] = np.array(getattr(traj, k), dtype=float).tobytes()
-    if hasattr(traj, "_poses_se3"):
-        d["_poses_se3"] = b"".join(np.asarray(p, dtype=float).tobytes() for p in traj._poses_se3)
-        d["_n"] = len(traj._poses_se3)
-    d["_projected"] = getattr(traj, "_projected", None)
+    for k, v in list(vars(traj).items()):
+        if isinstance(v, np.ndarray):
+            d[k] = v.tobytes() if v.dtype != object else repr(v.tolist())
+        elif isinstance(v, (list, tuple)) and v and all(isinstance(x, np.ndarray) for x in v):
+            d[k] = b"".join(np.asarray(x).tobytes() for x in v)
+            d["_n"] = len(v)
     d["meta"] = repr(sorted(traj.meta.items())) if isinstance(getattr(traj, "meta", None), dict) else None
     return d
+
+
+def same_snapshot(a, b):
+    """no array that both snapshots hold differs (a cache that appeared or disappeared is not a modification of the object)"""
+    return all(a[k] == b[k] for k in a if k in b and k != "_n")
 
 
 def frac(x, maxden=1 << 20, tol=1e-9, abstol=0.0):
